@@ -1,4 +1,5 @@
 import PdbModel.Edit
+import PdbModel.Add
 namespace PdbModel
 
 /-- generic predicate over (serial, name, hetero) views of an element -/
@@ -105,6 +106,15 @@ def applyOp (p : PDB) : List String → Step
       let (ms, _) ← parseMany parseModel (← n? n) rest
       pure ({ p with models := p.models ++ ms }, "-")
   -- Model level
+  | "m.add_atom" :: im :: ch :: num :: ic :: nm :: alt :: rest => do
+      -- `Model::add_atom`: the first chain with the id takes the atom, a new chain is appended otherwise
+      let (a, _) ← parseAtom rest
+      let op : RawMOp := (← decStr ch, ((← num.toInt?, ← decOpt ic), ((← decStr nm, ← decOpt alt), a)))
+      withModel p (← n? im) fun m => (m.addAtom op).map fun m' => (m', "-")
+  | "c.add_atom" :: im :: jc :: num :: ic :: nm :: alt :: rest => do
+      let (a, _) ← parseAtom rest
+      let op : RawCOp := ((← num.toInt?, ← decOpt ic), ((← decStr nm, ← decOpt alt), a))
+      withChain p (← n? im) (← n? jc) fun c => (c.addAtom op).map fun c' => (c', "-")
   | "m.add_chain" :: im :: rest => do
       let (c, _) ← parseChain rest
       withModel p (← n? im) fun m => some ({ m with chains := m.chains ++ [c] }, "-")
